@@ -782,8 +782,9 @@ Section Dynamics.
     Qed.
   End OneReaction.
 
-  (** ---- the same with the extras being plain unlabelled constants, no compound twice on the substrate side:
-      the form used by the C16 proofs (LinearProofs.v); holds for either form of the renaming block ---- *)
+  (** ---- the same with the extras being plain unlabelled constants; per-occurrence renaming (the repaired form: a compound
+      may stand several times on the substrate side, 2 A -> B) OR no compound twice on the substrate side (then either form of
+      the renaming block): the form used by the C16 proofs (LinearProofs.v) ---- *)
   Section OneReactionPlain.
     Variable ext_bit : bool.
     Variable rk : repl_kind.
@@ -797,7 +798,7 @@ Section Dynamics.
     Hypothesis Hfn : r_fn r = FProd.
     Hypothesis Hargs : Permutation (r_args r) (bs ++ extra).
     Hypothesis Hnd_st : NoDup (map fst (r_stoich r)).
-    Hypothesis Hnd_bs : NoDup bs.
+    Hypothesis Hrk : rk = ReplPositional \/ NoDup bs.
     Hypothesis Hextra : forall a, In a extra -> ~ In a bs /\ ~ In a bp /\ nlab lv a = O
                                                /\ (rk = ReplPositional -> getN a lv = None).
 
@@ -824,7 +825,7 @@ Section Dynamics.
       = prod (map env (map (fun cq => iso_name (fst cq) (snd cq)) (subpairs ext_bit lv r p)))
         * prod (map (fun a => env (LPlain a)) extra).
     Proof.
-      rewrite (rate_mass_action_gen ext_bit rk lv r lmap env extra Hfn Hargs Hnd_st (or_intror Hnd_bs) plain_extra p).
+      rewrite (rate_mass_action_gen ext_bit rk lv r lmap env extra Hfn Hargs Hnd_st Hrk plain_extra p).
       rewrite plain_kx. reflexivity.
     Qed.
 
@@ -834,7 +835,7 @@ Section Dynamics.
       = prod (map (benv lv env) bs) * prod (map (fun a => env (LPlain a)) extra).
     Proof.
       rewrite <- plain_kx.
-      exact (sum_rates_gen ext_bit rk lv r lmap env extra Hfn Hargs Hnd_st (or_intror Hnd_bs) plain_extra).
+      exact (sum_rates_gen ext_bit rk lv r lmap env extra Hfn Hargs Hnd_st Hrk plain_extra).
     Qed.
 
     Lemma base_rate :
